@@ -56,9 +56,9 @@ CHECKS = {
    text="For vocabulary sizes at the 32-bit boundaries, every mask content, every eos id, destination buffers smaller than / equal to / larger than the mask and the three result kinds: no out-of-bounds read of the mask or write of the destination, destination words equal the mask words then zeros (plus the EOS bit on stop), no bit at or above the vocabulary size.",
    note="Buffer half only: equality of C and Rust results, pointer lifetimes and rayon scheduling are outside. V and result kind concrete per instance because Kani mis-models write_bytes with a symbolic count."),
  "C19": dict(level="model_checking", engine="E1-kani+E2-export-smt", design="DESIGN.md §2 C19",
-   technique="Kani/CBMC over the range-negation loop (source slice), contains_token and SimpleVob::allow_range; SAT run over every exported text-lexeme automaton with a symbolic byte string containing the marker byte 0xFF",
+   technique="Kani/CBMC over the range-negation loop (source slice), contains_token, SimpleVob::allow_range and the post-walk statements of compute_bias (source slice); SAT run over every exported text-lexeme automaton with a symbolic byte string containing the marker byte 0xFF",
    text="Negated token ranges are sorted, disjoint, inside the vocabulary and contain a token iff no input range does (<=3 ranges, every u32 vocabulary size); contains_token equals range membership; allow_range adds exactly the bits of the range to a vector with symbolic previous content; every text lexeme automaton of the corpus is dead after any string containing 0xFF.",
-   note="Range/marker half: add_numeric_token / flush_and_check_numeric at run time, removal of the bare marker token from masks, marker-aware tokenisation are outside. The sort call inside the slice is cut out (std sort does not terminate under CBMC)."),
+   note="Range/marker half: add_numeric_token / flush_and_check_numeric at run time and marker-aware tokenisation are outside; the post-walk statements of compute_bias (bare-marker removal, ranges, EOS) are decided as a source slice in a mock parser state. The sort call inside the slice is cut out (std sort does not terminate under CBMC)."),
  "C20": dict(level="model_checking", engine="E1-kani", design="DESIGN.md §2 C20",
    technique="Kani/CBMC panic/overflow/bounds checking of arithmetic and index kernels over all inputs within stated bounds",
    text="Freedom from panics, arithmetic overflow and out-of-bounds accesses for every input of the listed kernels (Decimal::new/checked_lcm/gcd64, normalize_integer_bounds, min/max selection, ParamRef/ParamExpr/ParamCond, Item packing, valid_utf8_len incl. its functional post-condition, TrieNode packing, token_len).",
